@@ -24,9 +24,17 @@ func RenderTemplates(_ context.Context, pkg *packagetypes.Package, tmplCtx packa
 		return err
 	}
 
+	// Template functions only get to see the source files of the package.
+	// Rendered templates are added to pkg.Files while iterating over it below,
+	// so reading pkg.Files directly would make the result depend on map iteration order.
+	sourceFiles := make(map[string][]byte, len(pkg.Files))
+	for path, content := range pkg.Files {
+		sourceFiles[path] = content
+	}
+
 	templ := template.New("pkg").Option("missingkey=error")
 	templ = templ.Funcs(transform.SprigFuncs(templ)).
-		Funcs(transform.FileFuncs(pkg.Files))
+		Funcs(transform.FileFuncs(sourceFiles))
 
 	celFn, err := celTemplateFunction(pkg.Manifest.Spec.Filters.Conditions, tmplCtx)
 	if err != nil {
